@@ -8,13 +8,13 @@ from . import c15
 META = dict(
     functions=['data_msg.TxMsg.parse_msg/RxMsg.parse_msg (+parse_hdr, parse_burst, parse_mts)', 'data_if.DATAInterface.recv_tx_msg/recv_rx_msg/recv_raw_data/match_hdr_ver', 'transceiver.Transceiver.recv_data_msg',
                'ctrl_if.CTRLInterface.handle_rx/verify_req/prepare_req/verify_cmd/send_response', 'ctrl_if_trx.CTRLInterfaceTRX.parse_cmd', 'fake_trx.FakeTRX.ctrl_cmd_handler',
-               'data_dump.DATADumpFile._seek2msg/_parse_msg/parse_msg/parse_all', 'data_dump.DATADump.parse_hdr'],
+               'data_dump.DATADumpFile._seek2msg/_parse_msg/parse_msg/parse_all', 'data_dump.DATADump.parse_hdr', 'trx_if.c: trx_data_rx_cb', 'trx_if.c: trx_ctrl_read_cb', 'trx_if.c: trx_if_measure_rsp_cb', 'trx_if.c: trx_ctrl_send'],
     bounds=dict(quick='TRXD: fully symbolic datagrams of the boundary lengths of C04 (0..14, 151..160, 447..458) into recv_data_msg, running or not, then a valid burst; '
                       'TRXC: "CMD <VERB>" followed by a separator and up to 3 arbitrary octets for every verb that parses an integer, fully arbitrary datagrams of 0..5 octets, each followed by a valid command whose reply/effect is checked; '
                       'capture: fully symbolic file content of every length 0..14 through parse_all() / parse_msg(0) / parse_msg(1) / parse_all(1,1)',
                 thorough='TRXD every length 0..520; TRXC tails up to 4 octets, arbitrary datagrams up to 6; capture lengths 0..20'),
     stubs=['fake socket', 'logging', 'per-character symbolic text: bytes.decode (ASCII + definitely-invalid UTF-8), str.startswith/strip/split/==, int(str) grammar model', 'time.sleep', 'file proxy with symbolic read/seek sizes (case split)'],
-    outside=['datagrams containing octets 0xC2..0xF4 (possible valid multi-byte UTF-8 text)', 'control datagrams longer than the enumerated tails', 'FAKE_TRXC_DELAY with a delay the OS sleep cannot represent (sleep is stubbed)', 'trxcon side (llsym jobs)'],
+    outside=['toolkit control datagrams containing octets 0xC2..0xF4 (possible valid multi-byte UTF-8 text)', 'trxcon: control replies longer than prefix + 3 (6) arbitrary octets; sscanf modelled for <= 9 digits', 'control datagrams longer than the enumerated tails', 'FAKE_TRXC_DELAY with a delay the OS sleep cannot represent (sleep is stubbed)', ],
     assumptions=['after the malformed input the transceiver must still answer CMD SETTA <n> with RSP SETTA 0 <n> and apply it, and still queue a valid burst'],
     explanation='obligation everywhere: no exception escapes the socket/capture entry point; malformed data messages leave queue and state untouched; malformed control text is answered with a non-zero status or ignored (at most one reply, to the sender); a following valid command/burst is served correctly')
 
@@ -35,6 +35,18 @@ def jobs(tier, seed):
         out.append(('trxc.%s.two-args' % verb, 'h_trxc_tail', dict(verb=verb, k=1, nul=True, pre='7 ')))
     for L in range(0, (7 if tier == 'thorough' else 6)):
         out.append(('trxc.arbitrary.len=%d' % L, 'h_trxc_any', dict(L=L)))
+    from . import trxc
+    dl = list(range(0, 513)) if tier == 'thorough' else [0, 1, 7, 8, 9, 155, 156, 157, 158, 159, 451, 452, 453, 454, 455, 511, 512]
+    for L in dl + [600]:
+        out.append(('trxcon.data.len=%d' % L, 'c_data_any', dict(L=L)))
+    tl = 6 if tier == 'thorough' else 3
+    for cmd in trxc.CMDS:
+        verb = cmd[4:].split(' ')[0]
+        for L in range(0, tl + 1):
+            out.append(('trxcon.ctrl.%s.rsp+%d' % (verb, L), 'c_ctrl_any', dict(cmd=cmd, L=L, prefix='RSP ' + verb)))
+        for L in range(0, 5):
+            out.append(('trxcon.ctrl.%s.any%d' % (verb, L), 'c_ctrl_any', dict(cmd=cmd, L=L, prefix='')))
+    out.append(('trxcon.validation', 'c_validate', dict(seed=seed)))
     for L in range(0, (21 if tier == 'thorough' else 15)):
         for what in ('parse_all()', 'parse_msg(0)', 'parse_msg(1)', 'parse_all(1,1)'):
             out.append(('capture.len=%d.%s' % (L, what), 'h_capture', dict(L=L, what=what)))
@@ -154,3 +166,15 @@ def h_capture(ctx, L, what):
             r = eval('ddf.' + what, dict(ddf=ddf))
         if what == 'parse_all()': ctx.check('parse_all:returns-list', isinstance(r, list))
         else: ctx.check('returns', r is None or r is False or isinstance(r, (list, T.data_msg.Msg)))
+
+
+def run_job(hid, fname, shape, timeout_ms):
+    if fname.startswith('c_'):
+        from . import trxc
+        return getattr(trxc, fname)(hid, timeout_ms=timeout_ms, **shape)
+    return core.explore(globals()[fname], hid, shape, timeout_ms=timeout_ms)
+
+
+def replay(body):
+    from . import trxc
+    return trxc.replay(body)
